@@ -111,6 +111,10 @@ func (p HopByHopExtensionHeader) Data() []byte      { return p[2:p.Len()] }    /
 // ParseHopByHopExtensions returns a map of icmp6 hop by hop extensions
 // TODO: finish parse ipv6 options
 func (p HopByHopExtensionHeader) ParseHopByHopExtensions() (ext map[int][]byte, err error) {
+	// Data() slices up to the length announced in the header: validate first
+	if !p.IsValid() {
+		return nil, ErrParseFrame
+	}
 
 	data := p.Data()
 	pos := 0
